@@ -22,6 +22,23 @@ Proof.
   - destruct (exponent s3) as [ex s4]. inversion H; subst. reflexivity.
 Qed.
 
+Lemma mant_sum_split ip fp ex sg rest' : wf_mant ip fp = true -> is_pm sg = true ->
+  exists x rest, render_mant ip fp ex ++ sg :: rest' = ip ++ x :: rest /\ stopper2 x = true /\ (ip = [] -> stopper x = true).
+Proof.
+  intros W P. destruct fp as [f|].
+  - assert (Q : Some f <> None \/ ex <> None) by (left; discriminate).
+    destruct (render_mant_split ip (Some f) ex (sg :: rest') W Q) as (x & rest & A & B).
+    exists x, rest. split; [exact A | split; [unfold stopper2; rewrite B; reflexivity | intros _; exact B]].
+  - destruct ex as [e|].
+    + assert (Q : @None text <> None \/ Some e <> None) by (right; discriminate).
+      destruct (render_mant_split ip None (Some e) (sg :: rest') W Q) as (x & rest & A & B).
+      exists x, rest. split; [exact A | split; [unfold stopper2; rewrite B; reflexivity | intros _; exact B]].
+    + exists sg, rest'. split; [|split].
+      * unfold render_mant. rewrite app_nil_r. reflexivity.
+      * unfold stopper2. rewrite P. apply orb_true_r.
+      * intros ->. unfold wf_mant in W. simpl in W. discriminate W.
+Qed.
+
 Section Ext.
 Variable U : uni.
 
@@ -49,15 +66,7 @@ Proof.
   pose proof (strtod_rendered ip1 fp1 ex1 tl W1 E1 (safe_sign minus _)) as ST. fold s in ST.
   pose proof (mant_first_not_space ip1 fp1 ex1 tl W1) as FS. fold s in FS.
   assert (SPLIT : exists x rest, s = ip1 ++ x :: rest /\ stopper2 x = true /\ (ip1 = [] -> stopper x = true)).
-  { destruct fp1 as [f|] eqn:EF; [|destruct ex1 as [e|] eqn:EE].
-    - destruct (render_mant_split ip1 (Some f) ex1 tl W1 (or_introl ltac:(discriminate))) as (x & rest & A & B).
-      exists x, rest. repeat split; [exact A | unfold stopper2; rewrite B; reflexivity | intros _; exact B].
-    - destruct (render_mant_split ip1 None (Some e) tl W1 (or_intror ltac:(discriminate))) as (x & rest & A & B).
-      exists x, rest. repeat split; [exact A | unfold stopper2; rewrite B; reflexivity | intros _; exact B].
-    - exists sg, (render_mant ip2 fp2 ex2 ++ [j]). repeat split.
-      + unfold s, render_mant, tl. rewrite !app_nil_r. reflexivity.
-      + unfold stopper2, sg. destruct minus; reflexivity.
-      + intros ->. unfold wf_mant in W1. simpl in W1. discriminate W1. }
+  { unfold s, tl. apply mant_sum_split; [exact W1 | unfold sg; destruct minus; reflexivity]. }
   destruct SPLIT as (x & rest & E & SX & SX0).
   rewrite numeric_from_parts.
   assert (HI : hy_integer U s = None).
@@ -100,10 +109,13 @@ Qed.
 
 Lemma strip_seps_ascii s : forallb is_ascii s = true -> forallb is_ascii (strip_seps s) = true.
 Proof.
-  intros A. destruct s as [|c [|d r]]; try exact A. unfold strip_seps.
-  simpl in A. apply andb_true_iff in A. destruct A as [Ac Ar]. simpl. rewrite Ac. simpl.
-  unfold remove_seps. apply forallb_forall. intros x Hx. apply filter_In in Hx. destruct Hx as [Hx _].
-  assert (G : forallb is_ascii (d :: r) = true) by exact Ar. rewrite forallb_forall in G. apply G. exact Hx.
+  intros A. destruct s as [|c [|d r]]; try exact A.
+  assert (Ac : is_ascii c = true) by (simpl in A; apply andb_true_iff in A; tauto).
+  assert (Ar : forallb is_ascii (d :: r) = true) by (simpl in A; apply andb_true_iff in A; tauto).
+  change (strip_seps (c :: d :: r)) with (c :: remove_seps (d :: r)).
+  cbn [forallb]. rewrite Ac. cbn [andb].
+  apply forallb_forall. intros x Hx. unfold remove_seps in Hx. apply filter_In in Hx. destruct Hx as [Hx _].
+  rewrite forallb_forall in Ar. apply Ar. exact Hx.
 Qed.
 
 Theorem numeric_ascii_indep (V : uni) s : forallb is_ascii s = true -> numeric U s = numeric V s.
